@@ -21,13 +21,16 @@ func (a *verifDiscardRec) DiscardUpto(off int64) error {
 // VerifH_TruncateTombstones: value-log truncation up to transaction `cut` never discards, in any
 // value log, beyond the first value offset of any transaction with id >= cut.
 // History: n transactions whose values landed in value log v_i (1..C) at first-value offset o_i,
-// in ANY order between transactions (concurrent committers); an empty first value has offset 0.
+// in ANY order between transactions (concurrent committers); a transaction whose first entry has an
+// empty value (offset 0, length 0) still has a non-empty value at o_i.
 func VerifH_TruncateTombstones() {
 	n := verifrt.Param("n")
 	C := verifrt.Param("C")
 	vlog := make([]byte, n+1)
-	first := make([]int64, n+1)
+	first := make([]int64, n+1)      // offset of the transaction's first NON-EMPTY value
+	firstEmpty := make([]bool, n+1) // the transaction's first entry has an empty value (offset 0)
 	for i := 1; i <= n; i++ {
+		firstEmpty[i] = verifrt.Bool("firstEmpty")
 		vlog[i] = verifrt.Byte("vlog")
 		verifrt.Assume(vlog[i] >= 1 && int(vlog[i]) <= C)
 		first[i] = verifrt.I64("first")
@@ -46,7 +49,10 @@ func VerifH_TruncateTombstones() {
 		}
 		for i := 1; i <= n; i++ {
 			if uint64(i) == txID {
-				return &TxEntry{vOff: encodeOffset(first[i], vlog[i])}, nil
+				if firstEmpty[i] {
+					return &TxEntry{vLen: 0, vOff: encodeOffset(0, vlog[i])}, nil
+				}
+				return &TxEntry{vLen: 1, vOff: encodeOffset(first[i], vlog[i])}, nil
 			}
 		}
 		return nil, ErrTxNotFound
